@@ -69,6 +69,81 @@ PredCalls(t, a) ==
       md |-> IF Md(t, ax).has THEN Md(t, ax).rows[k] ELSE <<>>,
       ret |-> PredAccepts(a, Vec(t, ax, k), Ids(t, ax)[k], RowAt(t, ax, k))]]
 
+(************************** reads and metadata ****************************)
+ReadValue(t, a) ==
+  CASE a.kind = "nnz"      -> Nnz(t)
+    [] a.kind = "density"  -> DensityOf(t)
+    [] a.kind = "data"     -> VecOf(t, a.axis, a.id)
+    [] a.kind = "value"    -> Val(t, a.oid, a.sid)
+    [] a.kind = "iter"     -> [k \in 1..Len(Ids(t, a.axis)) |->
+                                 [id |-> Ids(t, a.axis)[k], vec |-> Vec(t, a.axis, k),
+                                  md |-> IF Md(t, a.axis).has THEN Md(t, a.axis).rows[k] ELSE <<>>]]
+    [] a.kind = "iter_data" -> [k \in 1..Len(Ids(t, a.axis)) |-> Vec(t, a.axis, k)]
+    [] a.kind = "pairwise" ->
+         LET n == Len(Ids(t, a.axis))
+             prs == SelectSeq(SetToSeq((1..n) \X (1..n)), LAMBDA p : p[1] < p[2])
+         IN [k \in 1..Len(prs) |->
+               <<[id |-> Ids(t, a.axis)[prs[k][1]], vec |-> Vec(t, a.axis, prs[k][1])],
+                 [id |-> Ids(t, a.axis)[prs[k][2]], vec |-> Vec(t, a.axis, prs[k][2])]>>]
+    [] a.kind = "nonzero"  -> SetToSeq(NonzeroPairs(t))
+    [] a.kind = "sum"      -> IF a.axis = "whole" THEN <<Total(t)>> ELSE SumAxis(t, a.axis)
+    [] a.kind = "nonzero_counts" ->
+          IF a.axis = "whole" THEN <<R(Nnz(t))>>
+          ELSE [k \in 1..Len(Ids(t, a.axis)) |-> R(NnzVec(Vec(t, a.axis, k)))]
+    [] a.kind = "shape"    -> <<Len(t.obs), Len(t.samp)>>
+    [] a.kind = "ids"      -> Ids(t, a.axis)
+    [] a.kind = "exists"   -> Has(t, a.axis, a.id)
+    [] OTHER               -> TRUE
+
+\* rows are sequences in the state; an updated row is rebuilt from the set of entries
+RowSeq(r) == SetToSeq(r)
+WithMd(t, ax, md) == IF ax = "observation" THEN [t EXCEPT !.omd = md] ELSE [t EXCEPT !.smd = md]
+AddMd(t, md, ax) ==
+  LET ids == Ids(t, ax)
+      touched == \E k \in 1..Len(ids) : ids[k] \in MdMapIds(md)
+  IN IF ~Md(t, ax).has /\ ~touched THEN t
+     ELSE WithMd(t, ax, [has |-> TRUE,
+            rows |-> [k \in 1..Len(ids) |->
+                        IF ids[k] \in MdMapIds(md)
+                        THEN RowSeq(RowUpdate(RowAt(t, ax, k), MdMapRow(md, ids[k])))
+                        ELSE RowSeq(RowAt(t, ax, k))]])
+DelMd1(t, a, ax) ==
+  IF ~Md(t, ax).has THEN t
+  ELSE IF a.allkeys THEN WithMd(t, ax, NoMd)
+  ELSE LET rows == [k \in 1..Len(Ids(t, ax)) |-> RowSeq(RowDelete(RowAt(t, ax, k), SeqSet(a.keys)))]
+       IN IF \A k \in 1..Len(rows) : rows[k] = <<>> THEN WithMd(t, ax, NoMd)
+          ELSE WithMd(t, ax, [has |-> TRUE, rows |-> rows])
+DelMd(t, a) == IF a.axis = "whole" THEN DelMd1(DelMd1(t, a, "sample"), a, "observation")
+               ELSE DelMd1(t, a, a.axis)
+
+(**************************** user functions ******************************)
+ElementwiseFs == {"double", "square", "zero_ge2"}
+MinOf(vals) == IF vals = <<>> THEN Zero ELSE MinSeq(vals)
+ApplyF(a, vals, id, row) ==
+  CASE a.f = "double"   -> [k \in 1..Len(vals) |-> Mul(vals[k], R(2))]
+    [] a.f = "square"   -> [k \in 1..Len(vals) |-> Mul(vals[k], vals[k])]
+    [] a.f = "zero_ge2" -> [k \in 1..Len(vals) |-> IF Leq(R(2), vals[k]) THEN Zero ELSE vals[k]]
+    [] a.f = "sub_min"  -> [k \in 1..Len(vals) |-> Sub(vals[k], MinOf(vals))]
+    [] a.f = "times_len" -> [k \in 1..Len(vals) |-> Mul(vals[k], R(Len(vals)))]
+    [] a.f = "by_md"    -> [k \in 1..Len(vals) |->
+                              IF <<a.mdkey, "s", <<a.mdval>>>> \in row THEN Mul(vals[k], R(3)) ELSE vals[k]]
+    [] a.f = "by_id"    -> [k \in 1..Len(vals) |-> IF id \in SeqSet(a.ids) THEN Mul(vals[k], R(5)) ELSE vals[k]]
+    [] OTHER            -> vals
+TransformCalls(t, a) ==
+  [k \in 1..Len(Ids(t, a.axis)) |->
+     LET vals == NZVals(Vec(t, a.axis, k)) IN
+     [vals |-> vals, id |-> Ids(t, a.axis)[k],
+      md |-> IF Md(t, a.axis).has THEN Md(t, a.axis).rows[k] ELSE <<>>,
+      ret |-> ApplyF(a, vals, Ids(t, a.axis)[k], RowAt(t, a.axis, k))]]
+\* rank of the m-th entry of v among its non-zero entries = number of non-zero entries up to m
+NZRank(v, m) == Cardinality({q \in 1..m : ~IsZero(v[q])})
+TransformT(t, a) ==
+  LET calls == TransformCalls(t, a) IN
+  MapNZ(t, LAMBDA v, i, j :
+             LET k == IF a.axis = "observation" THEN i ELSE j
+                 m == IF a.axis = "observation" THEN j ELSE i
+             IN calls[k].ret[NZRank(Vec(t, a.axis, k), m)])
+
 (***************************** model events ******************************)
 NatSorted(ids) == SortSeq(ids, LAMBDA x, y : NatRank[x] < NatRank[y])
 SortF(f, ids) ==
@@ -102,7 +177,7 @@ ModelEvent(h, st) ==
           NewEv(st, h, TRUE, Fresh([pre EXCEPT !.tid = pre.tid]),
                 [ret_is_recv |-> FALSE, eq_orig |-> TRUE, eq_orig_rev |-> TRUE, ne_orig |-> FALSE])
      [] st.call = "update_ids" ->
-          InplaceEv(st, h, UpdateIdsOk(pre, MapOf(a.map), a.axis, a.strict),
+          InplaceEv(st, h, Ids(pre, a.axis) # <<>> /\ UpdateIdsOk(pre, MapOf(a.map), a.axis, a.strict),
                     Fresh(UpdateIds(pre, MapOf(a.map), a.axis)))
      [] st.call = "align_to" ->
           LET oth == h[a.other]
@@ -115,6 +190,32 @@ ModelEvent(h, st) ==
               t1  == IF doS /\ possible THEN SortOrder(pre, oth.samp, "sample") ELSE pre
               t2  == IF doO /\ possible THEN SortOrder(t1, oth.obs, "observation") ELSE t1
           IN NewEv(st, h, possible, Fresh(t2), [ret_is_recv |-> FALSE])
+     [] st.call = "read" ->
+          IF ReadDefined(pre, a) THEN Ev(st, h, h, "ok", [value |-> ReadValue(pre, a)])
+          ELSE Ev(st, h, h, "error", [value |-> FALSE])
+     [] st.call = "probe" ->
+          Ev(st, h, h, "ok", [via |-> <<[name |-> "model", mat |-> pre.mat]>>, nnz |-> Nnz(pre),
+                              density |-> DensityOf(pre)])
+     [] st.call = "eq" ->
+          LET e == EqContent(pre, h[a.other]) IN
+          Ev(st, h, h, "ok", [eq |-> e, ne |-> ~e, eq_rev |-> e, eq_self |-> TRUE, desc_equal |-> e,
+                              eq_again |-> e])
+     [] st.call = "add_metadata" ->
+          Ev(st, h, Put(h, st.recv, Fresh(AddMd(pre, a.md, a.axis))), "ok", [none |-> TRUE])
+     [] st.call = "del_metadata" ->
+          Ev(st, h, Put(h, st.recv, Fresh(DelMd(pre, a))), "ok", [none |-> TRUE])
+     [] st.call = "transform" ->
+          LET r  == Fresh(TransformT(pre, a))
+              e  == InplaceEv(st, h, TRUE, r)
+              ew == a.f \in ElementwiseFs
+          IN [e EXCEPT !.obs = e.obs @@ [calls |-> TransformCalls(pre, a), elementwise |-> ew,
+                                         other_axis_out |-> "ok",
+                                         other_axis |-> IF ew THEN Fresh(TransformT(pre, [a EXCEPT !.axis = Other(a.axis)]))
+                                                        ELSE r]]
+     [] st.call = "norm" -> InplaceEv(st, h, TRUE, Fresh(NormT(pre, a.axis)))
+     [] st.call = "pa" -> InplaceEv(st, h, TRUE, Fresh(PA(pre)))
+     [] st.call = "rankdata" ->
+          InplaceEv(st, h, TRUE, Fresh(RankT(pre, a.axis, IF a.method = "ordinal" THEN "ordinal_model" ELSE a.method)))
      [] OTHER -> Ev(st, h, h, "error", [nothing |-> TRUE])
 
 (************************** argument alphabets ***************************)
@@ -132,6 +233,9 @@ FilterSteps(h, recv, res, full) ==
   LET t == h[recv] IN
   UNION {
     LET idsets == IF full THEN SubSeqsOf(Ids(t, ax)) \cup {Ids(t, ax) \o <<"zz">>}
+                               \cup {<<"zz">> \o RestOf(Ids(t, ax))}              \* as long as the axis, one unknown
+                               \cup {FirstOf(Ids(t, ax)) \o Ids(t, ax)}           \* a repeated ID
+                               \cup {FirstOf(Ids(t, ax)) \o FirstOf(Ids(t, ax)) \o RestOf(RestOf(Ids(t, ax)))}
                   ELSE {FirstOf(Ids(t, ax)), RestOf(Ids(t, ax))}
         preds  == IF full THEN {"first_nonzero", "last_nonzero", "any_nonzero", "by_md", "all"}
                   ELSE {"last_nonzero"}
@@ -166,6 +270,8 @@ RenameMaps(ids) ==
 StepsFor(call, h, recv, res, full) ==
   LET t == h[recv] IN
   CASE call = "filter" -> FilterSteps(h, recv, res, full)
+    [] call = "filter_pred" -> {x \in FilterSteps(h, recv, res, full) : x.args.mode = "pred"}
+    [] call = "filter_ids"  -> {x \in FilterSteps(h, recv, res, full) : x.args.mode = "ids"}
     [] call = "remove_empty" ->
          {St(call, recv, res, [axis |-> ax, inplace |-> ip]) :
             ax \in {"sample", "observation", "whole"}, ip \in BOOLEAN}
@@ -191,6 +297,51 @@ StepsFor(call, h, recv, res, full) ==
          THEN {St(call, recv, res, [other |-> "b", axis |-> ax]) :
                  ax \in {"sample", "observation", "both", "detect"}}
          ELSE {}
+    [] call = "read" ->
+         LET o1 == IF t.obs = <<>> THEN "zz" ELSE t.obs[1]
+             sl == IF t.samp = <<>> THEN "zz" ELSE t.samp[Len(t.samp)]
+             RA(kind, ax, id) == [kind |-> kind, axis |-> ax, id |-> id, oid |-> o1, sid |-> sl]
+         IN {St(call, recv, recv, RA(k, ax, IF ax = "observation" THEN o1 ELSE sl)) :
+               k \in (IF full THEN {"nnz", "density", "data", "value", "iter", "iter_data", "pairwise", "nonzero",
+                                    "sum", "nonzero_counts", "shape", "ids", "exists", "str", "repr", "eq_self",
+                                    "min", "max", "to_dataframe", "is_empty"}
+                      ELSE {"nnz", "data", "iter", "eq_self", "sum"}),
+               ax \in Axes}
+            \cup (IF full THEN {St(call, recv, recv, RA(k, "whole", "zz")) : k \in {"sum", "nonzero_counts"}} ELSE {})
+    [] call = "probe" -> {St(call, recv, recv, [none |-> TRUE])}
+    [] call = "eq" -> IF "b" \in DOMAIN h /\ recv # "b" THEN {St(call, recv, recv, [other |-> "b"])} ELSE {}
+    [] call = "add_metadata" ->
+         UNION {
+           LET ids == Ids(t, ax)
+               rowA == <<<<"k1", "s", <<"q">>>>>>
+               rowB == <<<<"k2", "s", <<"p">>>>, <<"k3", "l", <<"p", "q">>>>>>
+               maps == IF ids = <<>> THEN {<<>>}
+                       ELSE IF full
+                       THEN {<<<<ids[1], rowA>>>>,                                  \* first ID, overwrite k1
+                             <<<<ids[Len(ids)], rowB>>, <<"zz", rowA>>>>,           \* last ID + an unknown ID
+                             [k \in 1..Len(ids) |-> <<ids[k], rowB>>],             \* every ID
+                             <<<<"zz", rowA>>>>,                                    \* only unknown IDs
+                             <<<<ids[1], <<>>>>>>,                                  \* an empty row
+                             <<<<ids[1], <<<<"k1", "s", <<"">>>>, <<"k2", "i", <<"0">>>>>>>>>>,   \* falsy values
+                             [k \in 1..Len(ids) |-> <<ids[k], <<<<"k1", "i", <<"0">>>>, <<"k9", "l", <<>>>>>>>>]}
+                       ELSE {<<<<ids[Len(ids)], rowB>>, <<"zz", rowA>>>>}
+           IN {St(call, recv, recv, [md |-> m, axis |-> ax]) : m \in maps} : ax \in Axes}
+    [] call = "del_metadata" ->
+         {St(call, recv, recv, [keys |-> ks, allkeys |-> ak, axis |-> ax]) :
+            ks \in (IF full THEN {<<"k1">>, <<"k1", "taxonomy">>, <<"nokey">>, <<"k1", "k2", "k3", "taxonomy">>}
+                    ELSE {<<"k1">>}),
+            ak \in (IF full THEN BOOLEAN ELSE {FALSE}), ax \in {"sample", "observation", "whole"}}
+    [] call = "transform" ->
+         UNION {{St(call, recv, res, [f |-> f, axis |-> ax, inplace |-> ip, mdkey |-> "k1", mdval |-> "x",
+                                      ids |-> FirstOf(Ids(t, ax))]) :
+                   f \in (IF full THEN {"double", "square", "zero_ge2", "sub_min", "times_len", "by_md", "by_id"}
+                          ELSE {"zero_ge2", "sub_min"}), ip \in BOOLEAN} : ax \in Axes}
+    [] call = "norm" -> {St(call, recv, res, [axis |-> ax, inplace |-> ip]) : ax \in Axes, ip \in BOOLEAN}
+    [] call = "pa" -> {St(call, recv, res, [inplace |-> ip]) : ip \in BOOLEAN}
+    [] call = "rankdata" ->
+         {St(call, recv, res, [axis |-> ax, inplace |-> ip, method |-> m]) :
+            ax \in Axes, ip \in BOOLEAN,
+            m \in (IF full THEN {"average", "min", "max", "dense", "ordinal"} ELSE {"average"})}
     [] OTHER -> {}
 
 (****************************** the machine ******************************)
@@ -211,7 +362,8 @@ Init == \E i \in InitHeaps : init = i /\ heap = i.heap /\ hist = <<>>
 Next ==
   /\ Len(hist) < Depth
   /\ LET ph == Phases[Len(hist) + 1] IN
-     \E st \in Sample(UNION {StepsFor(call, heap, "a", IF ph.res = "same" THEN "a" ELSE "r", ph.full) :
+     /\ ph.recv \in DOMAIN heap
+     /\ \E st \in Sample(UNION {StepsFor(call, heap, ph.recv, IF ph.res = "same" THEN ph.recv ELSE ph.res, ph.full) :
                                 call \in ph.calls}, ph.pick, ph.salt + StateSalt(heap)) :
           LET ev == ModelEvent(heap, st) IN
             /\ Assert(Holds(ev), <<"model violates clauses", FailedClauses(ev), st>>)
